@@ -2,7 +2,8 @@
 
 Proof side: coq/C05_KVConc (thread-program model, linearizability for every schedule, sound history checker).
 Correspondence: free-running goroutine histories of the real code judged by the proved-sound Coq `lin_check`
-(and independently by a Go checker), plus lockstep scripts comparing every call result with the model."""
+(and independently by a Go checker), plus lockstep scripts comparing every call result with the model.
+Round 2: large-value histories (torn values), shared batch objects (BatchModel.v), both also under the race detector."""
 from . import lib
 
 LEVEL = "proof"
@@ -19,7 +20,10 @@ def run(ctx):
         "by the iterating goroutine with no lock held; consumers that block on anything but the store are outside the model",
         "sync.RWMutex modelled as: Lock needs no holder, RLock needs no write holder and no announced waiting writer; "
         "the body of each syncedKVMap method is one atomic step taken while the model thread holds the map lock",
-        "Go memory model / data-race freedom is not expressible in the model (race-detector build in the thorough tier only)",
+        "Go memory model / data-race freedom is not expressible in the model (race-detector build: quick tier runs the large-value and "
+        "shared-batch families under it, thorough tier all streams)",
+        "shared batch object (Batch.v): Set/Delete/Cancel/Commit of mapdb's batchedMutations as programs over the batch's own mutex; the flushkv "
+        "batch forwards to ONE underlying batch for its whole life; a Commit's store part is compile (CCommit w content)",
     ])
     if thorough:
         for k in range(5):
@@ -28,16 +32,30 @@ def run(ctx):
         ctx.seed -= 5000
         try:
             hxr = ctx.go_build("c05", race=True)
-            ctx.corr(hxr, ["all", "--nlin", "100", "--nseq", "20", "--nstress", "4000"], cases_name="cases_race.v")
+            ctx.corr(hxr, ["all", "--nlin", "100", "--nseq", "20", "--nstress", "4000", "--biguse", "3"], cases_name="cases_race.v")
             ctx.assumptions.append("race-detector build of the harness ran the same histories without a report (a report aborts the harness)")
         except RuntimeError as ex:
             ctx.log("race build unavailable: %s" % ex)
             ctx.assumptions.append("race-detector build not available on this machine: data-race freedom unchecked")
     else:
         ctx.corr(hx, ["all", "--nlin", "400", "--nseq", "120", "--nstress", "4000"])
+        # race-detector build, only the two families whose defect classes are data races first of all (value buffers shared across the
+        # lock boundary; a batch object shared by goroutines): ~2 s compile (cached), ~8 s run. A report makes the harness exit 66.
+        try:
+            hxr = ctx.go_build("c05", race=True)
+            ctx.corr(hxr, ["all", "--only", "big,sbatch", "--nbig", "60", "--biguse", "3", "--nsb", "1500", "--nsbdir", "60", "--nsbseq", "40"],
+                     cases_name="cases_race.v")
+            ctx.assumptions.append("race-detector build ran the large-value and shared-batch families without a report (a report makes the harness "
+                                   "exit with status 66 = harness-failure VIOLATION); the other streams run under it in the thorough tier only")
+        except RuntimeError as ex:
+            ctx.log("race build unavailable: %s" % ex)
+            ctx.assumptions.append("race-detector build not available on this machine: data-race freedom unchecked")
     ctx.assumptions += [
         "atomicity of a batch Commit is per write (as the property says); a Commit or a flushkv call is a sequence of atomic operations sharing the call's interval",
-        "a batch object is used by one goroutine (its own mutex is not part of the lock skeleton)",
+        "a batch object may be shared by goroutines and reused after Commit/Cancel (the interface does not forbid it; mapdb and rocksdb batches "
+        "carry their own mutex): judged as an object of its own (content read by a Commit at one instant of its interval) composed with the store; "
+        "Commit does not empty a batch (a later Commit applies the content again) - the model mirrors that",
+        "large-value family: a torn value is recognised because every stored value is the repetition of one 2-byte word unique to its Set",
         "free-running histories cover the interleavings the scheduler produced, not all of them; the theorem covers all schedules of the model",
         "re-entrant consumer scenarios: the writer is released when the consumer is inside a callback and the consumer re-enters once that writer "
         "has returned or is parked (runtime.Stack wait state); a scenario that does not finish within 10 s is reported as a hang",
